@@ -5,9 +5,12 @@ import (
 	"context"
 	"encoding/json"
 	"fmt"
+	"os"
+	"runtime"
 	"sort"
 	"strings"
 	"testing"
+	"time"
 
 	"github.com/blugelabs/bluge"
 	"pgregory.net/rapid"
@@ -15,7 +18,15 @@ import (
 	"verifharness/vlib"
 )
 
-func TestMain(m *testing.M) { vlib.Main(m) }
+// One shard is one sequential stream of searches; bluge's background goroutines, the watchdog
+// goroutine of every search and the garbage collector's workers only get in each other's way on
+// more processors (measured on the shared 16-core build machine: 38 corpora take 5.6 s of wall time
+// on one processor and 13 s on sixteen, the exhaustive sample 1.5 s against 4.6 s).  The shards
+// themselves run in parallel.
+func TestMain(m *testing.M) {
+	runtime.GOMAXPROCS(vlib.EnvInt("C07_GOMAXPROCS", 1))
+	vlib.Main(m)
+}
 
 var ev = vlib.NewEvidence("C07",
 	"corpus cases: generated corpora (5-40 documents in 2-6 batches with updates and deletes; text with positions, keyword, numeric, date and geo fields, missing or multi-valued, values on encoding boundaries; in-memory / file system, merger off or on, segment version 1 or 2) x generated query trees (depth <= 4, up to 14 clauses, every public query kind); "+
@@ -71,6 +82,8 @@ func search(r *bluge.Reader, site string, req bluge.SearchRequest) (nums []uint6
 	return
 }
 
+var slowMS = vlib.EnvInt("C07_SLOW_MS", 0)
+
 // env is one opened corpus with its model.
 type env struct {
 	o       *opened
@@ -88,7 +101,13 @@ func (e *env) observe(q *Q, md mode) (mask uint64, err error, f *vlib.Failure) {
 	if e.unguarded {
 		nums, err = searchRaw(e.o.reader, md.req(q.build(), len(e.m.docs)+5))
 	} else {
+		t0 := time.Now()
 		nums, err, f = search(e.o.reader, "Reader.Search("+md.name+")", md.req(q.build(), len(e.m.docs)+5))
+		if slowMS > 0 { // diagnostics only (C07_SLOW_MS): never part of a verdict
+			if d := time.Since(t0); d > time.Duration(slowMS)*time.Millisecond {
+				fmt.Fprintf(os.Stderr, "C07 slow search %v mode %s: %s\n", d, md.name, q)
+			}
+		}
 	}
 	if f != nil || err != nil {
 		return 0, err, f
@@ -440,8 +459,8 @@ func queryClasses(q *Q, s *qstat) []string {
 const queriesPerCorpus = 50
 
 func TestC07Corpus(t *testing.T) {
-	// quick: 4 shards x 38 corpora x 50 queries; thorough: 16 shards x 2000 corpora
-	vlib.Check(t, 38, 2000, func(rt *rapid.T) {
+	// quick: 4 shards x 60 corpora x 50 queries; thorough: 16 shards x 1000 corpora
+	vlib.Check(t, 60, 1000, func(rt *rapid.T) {
 		p := genPools(rt)
 		corpus := genCorpus(rt, p)
 		m := newModel(corpus.liveDocs())
